@@ -97,7 +97,7 @@ func c09Case(c *ctxT, hid int, seed int64) {
 	}
 	defer d.stop()
 	defer os.RemoveAll(d.dir)
-	kinds := []string{"running", "running", "succeeded", "failed", "vanished", "vanished", "vanished", "moved", "lookup-fail", "sticky-vanished", "sticky-running", "recreated", "readd-during-gc", "readd-during-gc"}
+	kinds := []string{"running", "running", "succeeded", "failed", "vanished", "vanished", "vanished", "moved", "lookup-fail", "sticky-vanished", "sticky-running", "recreated", "readd-during-gc", "readd-during-gc", "just-created"}
 	np := 6 + rng.Intn(9)
 	pods := make([]*c09Pod, np)
 	for i := range pods {
@@ -152,6 +152,12 @@ func c09Case(c *ctxT, hid int, seed int64) {
 			}
 		}
 	}
+	uncached := map[string]bool{}
+	for _, p := range pods {
+		if p.Kind == "just-created" {
+			uncached[fmt.Sprintf("p%d", p.I)] = true
+		}
+	}
 	listFailPass := 0
 	if rng.Intn(4) == 0 {
 		listFailPass = 1 + rng.Intn(2)
@@ -197,6 +203,13 @@ func c09Case(c *ctxT, hid int, seed int64) {
 				}
 			}
 			return nil
+		}
+		// a pod that was created and ADDed moments ago: reads served from the API server's watch cache
+		// (resourceVersion=0: the node's pod list) do not show it during the first two passes, quorum reads do
+		h.NotYetCached = func(pod *corev1.Pod) bool {
+			hmu.Lock()
+			defer hmu.Unlock()
+			return uncached[pod.Name] && pass <= 2
 		}
 		h.AfterGet = func(ctx context.Context, key client.ObjectKey, obj client.Object, err error) {
 			// the collector has just been told that this pod is gone: it is re-created now
